@@ -398,7 +398,7 @@ class URL:
     ) -> "URL":
         """Creates and returns a new URL"""
 
-        if authority and (user or password or host or port):
+        if authority and (user or password or host or port is not None):
             raise ValueError(
                 'Can\'t mix "authority" with "user", "password", "host" or "port".'
             )
@@ -407,7 +407,7 @@ class URL:
                 raise TypeError(f"The port is required to be int, got {type(port)!r}.")
             if not (0 <= port <= 65535):
                 raise ValueError(f"port must be between 0 and 65535, got {port}")
-        if port and not host:
+        if port is not None and not host:
             raise ValueError('Can\'t build URL with "port" but without "host".')
         if query and query_string:
             raise ValueError('Only one of "query" or "query_string" should be passed')
